@@ -63,9 +63,28 @@ def feature(s):
     return "+".join(f) or "plain"
 
 
+def setup(ctx):
+    """Order of public calls: the other name functions/middlewares have been used in this process before
+    (and are used again every few thousand cases) - state shared between them must not change the splitter."""
+    warm_up()
+
+
+def warm_up():
+    from bibtexparser.middlewares import names as N
+    for nm in ("Aa~bb Cc", "von~Last, Jr, First", "{x and y} z"):
+        try:
+            N.parse_single_name_into_parts(nm).merge_last_name_first
+        except Exception:  # noqa
+            pass
+    lib = build.library([["entry", "article", "w", [["author", ["Aa~bb Cc", "D~E"]]]]])
+    sp.escape(lambda: N.MergeNameParts().transform(N.SplitNameParts().transform(lib)))
+
+
 def check(case, ctx):
     from bibtexparser.middlewares import names as N
     contracts.install_split_contract()
+    if ctx.cases % 5000 == 0:
+        warm_up()
     s = case["s"]
     out = []
     c0 = contracts.COUNT["split_names_post"]
